@@ -12,6 +12,7 @@ from fakes.mongo_client import FakeMongoClient
 MODULE = 'Props.C18'
 THEOREMS = ['Vakt.C18.gated_and_ordered', 'Vakt.C18.version_never_past_failed', 'Vakt.C18.resume',
             'Vakt.C18.idempotent', 'Vakt.C18.completes', 'Vakt.C18.shipped_orders_ok',
+            'Vakt.C18.up_down_restores', 'Vakt.C18.up_down_restores_version',
             'Vakt.Migration.loop_resume', 'Vakt.Migration.loop_trace']
 FLOOR = {'quick': 1000, 'thorough': 20000}
 ASSUMPTIONS = ['step bodies are idempotent and either complete or have no effect (the recording set, create_all / '
